@@ -68,6 +68,7 @@ class Exec(HeapMixin, SpecEvalMixin, ExprMixin, StmtMixin, CallMixin):
         self.refine_seen = set()
         self.global_vals = {}
         self.region_index = {}
+        self.active_interference = ()
         self.last_locals = {}
         self.regions_used = set()
         self.global_facts = []
@@ -247,6 +248,7 @@ class Exec(HeapMixin, SpecEvalMixin, ExprMixin, StmtMixin, CallMixin):
     def _verify(self, c: Contract, fi: FuncInfo, res: FunctionResult):
         self.cur_module = fi.module
         self.cur_func_name = self.short_name(fi)
+        self.active_interference = tuple(getattr(c, "interference", ()) or ())
         st = self.initial_state(fi)
         self._boot_state = st
         for gname, gkind in self.reg.globals.items():
@@ -299,6 +301,11 @@ class Exec(HeapMixin, SpecEvalMixin, ExprMixin, StmtMixin, CallMixin):
                     names[gname] = getattr(self, "last_locals", {}).get(id(o.st), {}).get(lv, VNone)
                 if c.returns is not None:
                     names["result"] = self.check_result_kind(fin, o.val, c.returns)
+                if c.ghost_ensures:
+                    # ghost effects are definitional (the real code never touches ghost fields): apply them at exit
+                    fin = self.havoc_locations(fin, c.ghost_modifies, SpecEnv(entry, dict(params)))
+                    for gcl in c.ghost_ensures:
+                        fin = fin.assume(self.spec_bool(SpecEnv(fin, names, entry, dict(params)), gcl.expr))
                 self.apply_hints(fin, c.hints, SpecEnv(fin, names, entry, dict(params)))
                 for r in iff:
                     cond = self.spec_bool(SpecEnv(entry, dict(params)), r.when)
